@@ -17,7 +17,12 @@
      YGoStr x  a Go string encoded through reflection ([]string fields: tags, required, type lists):
                additionally quoted when it is a YAML 1.1 boolean word or a base-60 number, so every
                reader gets a string;
-     YNum/YBool typed values.
+     YNum/YBool typed values;
+     YNull     &yaml.Node{Kind: ScalarNode, Tag: "!!null", Value: "null"} (types.go:101-105, the member
+               makeNullableSchema appends to a non-empty `enum`): the resolved tag of the value equals the
+               node's tag, so the emitter writes the plain word `null` without an explicit tag; the v4
+               resolver (YAML 1.2 core) and the v2 resolver (YAML 1.1) both read it as null, and
+               YAMLToJSON prints JSON null.
    Public interface: ynode, yscalar, resolve12, resolve11, reader, reader12, reader11, denote,
    scalars, ynode_unknowns, yaml11_bool_word. *)
 From Sebuf Require Export JsonSchema.
@@ -28,6 +33,7 @@ Inductive ynode :=
   | YGoStr (x : str)
   | YNum (d : dec)
   | YBool (b : bool)
+  | YNull
   | YSeq (l : list ynode)
   | YMap (kv : list (str * ynode)).
 
@@ -201,6 +207,7 @@ Fixpoint denote (R : reader) (n : ynode) : jv :=
   | YGoStr x => JVStr x
   | YNum d => JVNum d
   | YBool b => JVBool b
+  | YNull => JVNull
   | YSeq l => JVArr (map (denote R) l)
   | YMap kv =>
       JVObj ((fix go (kv : list (str * ynode)) : list (str * jv) :=
@@ -215,7 +222,7 @@ Fixpoint scalars (n : ynode) : list (bool * str) :=
   match n with
   | YStr x => [(true, x)]
   | YPlain x => [(false, x)]
-  | YGoStr _ | YNum _ | YBool _ => []
+  | YGoStr _ | YNum _ | YBool _ | YNull => []
   | YSeq l => flat_map scalars l
   | YMap kv =>
       (fix go (kv : list (str * ynode)) : list (bool * str) :=
